@@ -511,7 +511,12 @@ class HostConnection(object):
             conn = self._session.cluster.connection_factory(self.host.endpoint, on_orphaned_stream_released=self.on_orphaned_stream_released)
             if self._keyspace:
                 conn.set_keyspace_blocking(self._keyspace)
-            self._connection = conn
+            with self._lock:
+                if self.is_shutdown:
+                    # shutdown() ran while we were connecting and will not see this connection
+                    conn.close()
+                    return
+                self._connection = conn
         except Exception:
             log.warning("Failed reconnecting %s. Retrying." % (self.host.endpoint,))
             self._session.submit(self._replace, connection)
